@@ -297,8 +297,11 @@ func (_this *Decoder) decodeArray(arrayType events.ArrayType, eventReceiver even
 	_this.decodeArrayChunks(eventReceiver, elementBitWidth)
 }
 
+// Type and subtype names are limited to 127 characters each (RFC 6838 section 4.2)
+const maxMediaTypeLength = 127 + 1 + 127
+
 func (_this *Decoder) decodeMedia(eventReceiver events.DataEventReceiver) {
-	mediaTypeLength := _this.reader.readSmallULEB128("media type length", 0xffffffff)
+	mediaTypeLength := _this.reader.readSmallULEB128("media type length", maxMediaTypeLength)
 	mediaType := string(_this.reader.ReadBytes(int(mediaTypeLength)))
 	elementBitWidth := 8
 	eventReceiver.OnMediaBegin(mediaType)
